@@ -13,7 +13,7 @@ CHECKS = {
     "C01": dict(
         technique="explicit-state exhaustive enumeration of a deviation-bounded input space against a reference model",
         text="Every schema within <=2 declarative edits and every table within <=2 cell/shape/dtype/index edits of 8 conforming "
-             "bases (DataFrameSchema, +Index, +MultiIndex, SeriesSchema(+index), stand-alone Column/Index) is validated by the real "
+             "bases (DataFrameSchema, +Index, +MultiIndex, SeriesSchema(+index), stand-alone Column/Index) plus a base with two columns of different parametrised categorical types is validated by the real "
              "pandas backend and the verdict compared with a three-valued reference model of the documented semantics; on accept "
              "the result must equal the input. " + ESPACE,
         note="Trusted: the reference model (mc/ref/semantics.py) and its UNSPECIFIED list; values/lengths outside the alphabets are not covered.",
@@ -22,7 +22,7 @@ CHECKS = {
         technique="explicit-state exhaustive enumeration of a deviation-bounded input space; eager vs lazy differential plus reference-model report comparison",
         text="Every case of the C01 space is validated eagerly and lazily (pandas; the 'frame' base also on polars): raises(lazy) <=> raises(eager), "
              "the eager error is among the lazy errors, the lazy failure_cases multiset equals the reference model's offending cells plus one "
-             "scalar entry per frame-level violation, error_counts equals a recount of schema_errors by reason, and the message has one entry per error.",
+             "scalar entry per frame-level violation, error_counts equals a recount of schema_errors by reason (also under validation depth SCHEMA_ONLY and DATA_ONLY), and the message has one entry per error.",
         note="Trusted: reference model where it declares the report defined; structural normalisations listed in mc/props/c02.py (dict-valued frame-check rows, MultiIndex scalar rows).",
         ref="3/C02"),
     "C03": dict(
@@ -30,7 +30,7 @@ CHECKS = {
         text="Every (schema, table) of the parser-enabled edit space (coerce at every level, default, add_missing_columns, strict='filter', idempotent "
              "custom parsers, drop_invalid_rows) is validated eagerly and lazily on pandas (DataFrame, Series with/without index schema, Column, Index, "
              "MultiIndex) and polars (DataFrame and LazyFrame); every returned object must be accepted by the same schema with parsing switched off and "
-             "must be a fixpoint of validate.",
+             "must be a fixpoint of validate; for an unordered MultiIndex the order of the data's levels must not matter (same outcome and parsed object as with the levels in schema order). Corner bases (ordered + add_missing_columns + optional + default; coercing string Index; unordered coercing MultiIndex) put deep option combinations one edit away, the first also for polars.",
         note="Trusted: strip_parsing (mc/spec/schema.py) really switches every parsing option off; custom parsers in the alphabet are idempotent.",
         ref="3/C03"),
     "C04": dict(
@@ -42,8 +42,8 @@ CHECKS = {
         ref="3/C04"),
     "C05": dict(
         technique="explicit-state exploration of operation histories on live schema objects (fingerprint invariant + differential outcome oracle)",
-        text="For 11 seed schemas (plain, regex, MultiIndex, frame-level dtype, coerce-everything, all built-in checks, custom checks, tz-agnostic DateTime, "
-             "model-born, SeriesSchema, polars) every one of ~40 public operations is an edge that must be a self-loop on a structural fingerprint of the whole "
+        text="For 12 seed schemas (plain, regex, MultiIndex, frame-level dtype, coerce-everything, all built-in checks, custom checks, tz-agnostic DateTime, "
+             "model-born, SeriesSchema, polars, MultiIndex with one coercing level) every one of ~45 public operations (validation of good / bad / coercible / odd data, serialisation, statistics, strategy construction and one real example draw, transformations) is an edge that must be a self-loop on a structural fingerprint of the whole "
              "schema object graph + configuration + MODEL_CACHE entry, and every history of length <= 2 (thorough 3) is executed on one live object with each "
              "operation's outcome compared with its outcome on a fresh object; transforming methods must leave the receiver unchanged and not alias it.",
         note="Trusted: fingerprint walker (mc/ref/fingerprint.py); a single reachable state is an inductive argument only for state the fingerprint sees, the bounded differential part covers the rest.",
@@ -54,16 +54,16 @@ CHECKS = {
         text="A: every case of the C01 and parser-enabled edit spaces on pandas and polars (eager and lazy, DataFrame and LazyFrame) and a non-dataframe argument "
              "alphabet must end in return / SchemaError / SchemaErrors / SchemaDefinitionError / SchemaInitError / TypeError-for-non-frames. B: 15 harness schemas "
              "with user callbacks of every kind (vectorised, element-wise, groupby-dict and groupby-callable checks on columns, index, frame; column and frame "
-             "parsers; custom dtype check/coerce; polars checks); the fault-free run counts invocations N and every k <= N x {ValueError, KeyError, TypeError, custom} "
+             "parsers; custom dtype check/coerce; polars checks); the fault-free run counts invocations N and every k <= N x {ValueError, KeyError, TypeError, custom, argument-less, a pandera SchemaError from nested validation} "
              "is replayed with the fault injected (thorough: all pairs): a check fault must surface as CHECK_ERROR, any callback fault must stay in the documented "
              "channel or be the injected object, and schema fingerprint / configuration / input snapshot must be unchanged afterwards.",
         note="Trusted: innermost-pandera-frame attribution of leaks; faults are ordinary exceptions raised by user callbacks.",
         ref="3/C06"),
     "C07": dict(
         technique="stateless model checking of thread interleavings on the real code: cooperative scheduler, iterative preemption bounding, DFS with prefix replay, conflict-based point reduction",
-        text="15 harnesses of 2-3 real threads validating concurrently (shared coercing schema, pass/fail lazy, polars DataFrame vs LazyFrame, polars vs pandas in a "
+        text="16 harnesses of 2-3 real threads validating concurrently (shared coercing schema, pass/fail lazy, polars DataFrame vs LazyFrame, polars vs pandas in a "
              "user config_context, shared column, cold MODEL_CACHE, three threads, shared regex schema, frame-level dtype override, polars shared coercing / frame-dtype schema, "
-             "unrelated pandas vs polars schemas). Module- and class-level state that a validation writes is discovered automatically (snapshot diff around warm validations) and its writers are traced. Scheduling points sit before every "
+             "unrelated pandas vs polars schemas, shared regex column on frames with different matches). Module- and class-level state that a validation writes is discovered automatically (snapshot diff around warm validations) and its writers are traced. Scheduling points sit before every "
              "attribute access of instrumented schema/component/check/config objects and every line of the functions touching module globals; a point is offered only "
              "where it conflicts with an access another thread may make (read/write sets grown to a fixpoint). All schedules with <= 1 preemption (quick; 2 for "
              "race-free harnesses) / <= 2 (thorough) are executed; every thread's outcome must equal its solo outcome and configuration + schema fingerprints must be restored.",
@@ -72,7 +72,7 @@ CHECKS = {
     "C08": dict(
         technique="exhaustive enumeration of backend-neutral (schema, table) pairs within bounded edits; differential oracle pandas vs polars",
         text="Every backend-neutral spec within <=2 schema edits (nullable, unique, required, strict, ordered, add_missing_columns, default, coerce, every built-in "
-             "check incl. regexes with top-level alternation / anchors / classes / empty pattern) and <=2 data edits of the 3-column base is validated lazily by both "
+             "check incl. regexes with top-level alternation / anchors / classes / empty pattern) and <=2 data edits of the 3-column base, and <=(1,2) edits of a parsing corner base (optional absent column, default, nullable, ordered, add_missing_columns), is validated lazily by both "
              "backends: verdicts, failing (column, check, row, value) cells, frame-level error sets and parsed outputs (up to null representation) must be equal.",
         note="Trusted: the exclusion list of documented / representational differences (mc/props/c08.py docstring): wrongly typed columns' check reports, nulls in int columns under coercion, uniqueness among nulls.",
         ref="3/C08"),
@@ -80,14 +80,14 @@ CHECKS = {
         technique="exhaustive enumeration of the live dtype registries of all four engines plus a finite parameter alphabet; all ordered pairs for check()",
         text="For numpy, pandas(+pyarrow), polars and pyspark engines every registered spelling and every generated parametrisation is resolved; idempotence with equal hashes, the resolved type denotes the native parametrised dtype it came from, "
              "equality of registered equivalents, str round trip for primitive types (numpy/pandas/pyspark), self-recognition, and absence of cross-kind / signedness / width "
-             "recognition over all ordered pairs of distinct resolved types.",
+             "recognition over all ordered pairs of distinct resolved types (width judged on the boxed native type where it has one).",
         note="Trusted: classification of a DataType into (kind, signedness, bit width) through the abstract pandera.dtypes hierarchy.",
         ref="3/C09"),
     "C10": dict(
-        technique="exhaustive enumeration of containers over a value pool up to a length bound for every coercible dtype; self-referential (singleton) oracle",
+        technique="exhaustive enumeration of containers over a value pool up to a length bound for every coercible dtype; self-referential (singleton) oracle; explicit-state exploration of coercion histories in fresh interpreters",
         text="25 pandas data types (numpy, nullable-extension, pyarrow, datetime, timedelta, category incl. a parametrised Category, string, object) and 8 polars types x every container of length <= 2 "
              "(thorough 3; polars one longer) over an 11-value mixed pool: success => same length/labels, own check passes, values equal the singleton coercions, idempotent; "
-             "failure => ParserError whose failure cases are exactly the elements whose singleton coercion fails.",
+             "failure => ParserError whose failure cases are exactly the elements whose singleton coercion fails. Histories: 10 data type objects (DateTime with/without tz and user keyword arguments, parametrised Category, int) x 4 containers (incl. wall-clock times at DST edges): every first operation followed by the whole alphabet forwards and backwards (thorough: every ordered pair in an interpreter of its own) must give each operation the outcome it has when run alone in a fresh interpreter.",
         note="Trusted: 'individually coercible' is defined by the implementation's behaviour on singleton containers (differential, no expected values).",
         ref="3/C10"),
     "C11": dict(
@@ -134,7 +134,7 @@ CHECKS = {
         technique="exhaustive enumeration of (predicate, data vector, index kind, level) with metamorphic relations between option variants",
         text="6 predicates x every vector of length <= 3 (thorough 4) over {1,2,3,-1,null} x 3 index kinds x {SeriesSchema, Column, Index, DataFrame} levels: element_wise == "
              "vectorised map; ignore_na hides nulls from the function and never fails them (and ignore_na=False shows them); n_failure_cases never changes the verdict and "
-             "reports a subset; raise_warning never raises and warns iff the plain check fails (incl. raising functions); groupby hands over exactly the groups (str / list / "
+             "reports a subset; raise_warning never raises and warns iff the plain check fails (for aligned-series, scalar, element-wise and groupby outputs, and raising functions); groupby hands over exactly the groups (str / list / "
              "callable, restricted by groups; object and categorical grouping columns incl. an empty group); ignore_na relations also on the nullable-extension Int64 representation; aliases equal and behave as their canonical checks; frame-level ignore_na; polars ignore_na / raise_warning.",
         note="Trusted: nothing but the relations themselves (no expected values).",
         ref="3/C19"),
@@ -157,7 +157,7 @@ CHECKS = {
         technique="exhaustive product of signature shape x designation x call shape x options x frame per decorator against a reference wrapper",
         text="12 generated signature shapes (plain, extra positional, defaults, *args, **kwargs, defaulted frame, method, classmethod, staticmethod, async, pre-wrapped; for check_types every shape also as a coroutine) x "
              "obj_getter None/int/str x positional/keyword/mixed/default-not-passed calls x {no option, head, tail, lazy, head+lazy} x 5 frames for check_input; tuple/list/dict/"
-             "callable outputs incl. negative and middle getters x sync/async for check_output and check_io(out=...), the whole returned container compared; check_io with all frame pairs; check_types over 9 annotation shapes: the instrumented body must run iff the "
+             "callable outputs incl. negative and middle getters x sync/async for check_output and check_io(out=...), the whole returned container compared; check_io with all frame pairs; check_types over 9 annotation shapes, and over 11 signatures with several annotated parameters (plain, Optional, Union of models, Union of other types, Union return; sync and async) x every argument combination, each argument judged against its own annotation: the instrumented body must run iff the "
              "designated input validates (with the given options), receive the parsed object, and the wrapper must return/raise what the reference wrapper does.",
         note="Trusted: the reference wrapper (inspect.signature binding + schema.validate with the same options).",
         ref="3/C17"),
